@@ -4,6 +4,7 @@
 (*   [t |-> "num", n]      numeric literal            [t |-> "cond", i]  condition i  *)
 (*   [t |-> "fail"]        an expression whose evaluation fails (1/blank)            *)
 (*   [t |-> "na"]          an expression yielding the error value #N/A (MATCH miss)  *)
+(*   [t |-> "blank"]       a reference to a blank cell      [t |-> "text"]  a text cell *)
 (*   [t |-> "if3", c, a, b]   [t |-> "if2", c, a]   [t |-> "ifs", ps] ps = <<<<c1, v1>>, ...>>   *)
 (*   [t |-> "iferror", x, f]                                                          *)
 (* env: sequence of BOOLEAN (truth of condition i).                                   *)
@@ -14,13 +15,15 @@ Num(n) == [k |-> "num", n |-> n]
 Bool(b) == [k |-> "bool", b |-> b]
 Err(e) == [k |-> "err", e |-> e]
 IsErr(v) == v.k = "err"
-Truthy(v) == IF v.k = "bool" THEN v.b ELSE v.n # 0
+Truthy(v) == IF v.k = "bool" THEN v.b ELSE IF v.k = "num" THEN v.n # 0 ELSE FALSE
 RECURSIVE Eval(_, _), EvalIfs(_, _, _)
 Eval(a, env) ==
   CASE a.t = "num"  -> Num(100 * a.n)
     [] a.t = "cond" -> Bool(env[a.i])
     [] a.t = "fail" -> Err("DIV0")
     [] a.t = "na"   -> Err("NA")
+    [] a.t = "blank" -> [k |-> "blank"]             \* a reference to a blank cell: a value, not an error
+    [] a.t = "text" -> [k |-> "text"]               \* a text value (which text is irrelevant here)
     [] a.t = "if3"  -> LET c == Eval(a.c, env) IN IF IsErr(c) THEN c ELSE IF Truthy(c) THEN Eval(a.a, env) ELSE Eval(a.b, env)
     [] a.t = "if2"  -> LET c == Eval(a.c, env) IN IF IsErr(c) THEN c ELSE IF Truthy(c) THEN Eval(a.a, env) ELSE Bool(FALSE)
     [] a.t = "ifs"  -> EvalIfs(a.ps, 1, env)
